@@ -70,10 +70,10 @@ func ParseOne(b []byte, off int) (*Node, error) {
 	if n.Constructed() {
 		kids, err := parseSeq(b, off+h, off+h+l)
 		if err != nil {
-			// lenient: a consumer that never descends here must not be
-			// out-strictnessed by the reference
+			// lenient: keep the elements that do parse (a consumer that reads
+			// only a prefix, or never descends here, must not be
+			// out-strictnessed by the reference) and remember the garbage
 			n.Opaque = true
-			return n, nil
 		}
 		for _, k := range kids {
 			k.Parent = n
@@ -88,7 +88,7 @@ func parseSeq(b []byte, from, to int) ([]*Node, error) {
 	for off := from; off < to; {
 		n, err := ParseOne(b[:to], off)
 		if err != nil {
-			return nil, err
+			return out, err
 		}
 		out = append(out, n)
 		off = n.End()
